@@ -229,3 +229,181 @@ func CodecSeqString(ops []CodecOp) string {
 	}
 	return strings.Join(s, " ")
 }
+
+// ---- flattened codec sequences (whole-function, control structure ignored)
+
+// FlatCodec lists the wire operations of fn in dominator preorder, skipping
+// blocks from which no success return is reachable.  Nested codec calls
+// (x.Serialization / x.Deserialization / Serialize / Deserialize on a
+// non-primitive type) appear as kind "T:<type>".  Adjacent operations of the
+// same kind that sit in mutually exclusive blocks are merged (if/else arms
+// writing the same tag).
+func FlatCodec(fn *ssa.Function) []CodecOp {
+	if fn == nil || len(fn.Blocks) == 0 {
+		return nil
+	}
+	recv := ssa.Value(nil)
+	if len(fn.Params) > 0 {
+		recv = fn.Params[0]
+	}
+	// blocks that can reach a success return
+	good := map[*ssa.BasicBlock]bool{}
+	var work []*ssa.BasicBlock
+	sinks := ir.SuccessSinks(fn)
+	if len(sinks) == 0 {
+		for _, b := range fn.Blocks {
+			if len(b.Instrs) > 0 {
+				if _, ok := b.Instrs[len(b.Instrs)-1].(*ssa.Return); ok && b != fn.Recover {
+					work = append(work, b)
+				}
+			}
+		}
+	}
+	for _, s := range sinks {
+		work = append(work, s.Instr.Block())
+	}
+	for len(work) > 0 {
+		b := work[len(work)-1]
+		work = work[:len(work)-1]
+		if good[b] {
+			continue
+		}
+		good[b] = true
+		work = append(work, b.Preds...)
+	}
+	var out []CodecOp
+	var blocks []*ssa.BasicBlock
+	for _, b := range fn.DomPreorder() {
+		if !good[b] {
+			continue
+		}
+		for _, in := range b.Instrs {
+			ci, ok := in.(ssa.CallInstruction)
+			if !ok {
+				continue
+			}
+			if _, isDefer := in.(*ssa.Defer); isDefer {
+				continue
+			}
+			// helper of the same codec: a static call on the same receiver (tx.SerializeUnsigned(sink),
+			// this.deserializationUnsigned(source)) is inlined
+			if callee := ci.Common().StaticCallee(); callee != nil && recv != nil && len(callee.Blocks) > 0 && flatDepth < 3 {
+				a := ci.Common().Args
+				if len(a) >= 2 && a[0] == recv && callee.Signature.Recv() != nil && !isCodecMethodName(callee.Name()) && passesStream(fn, a[1:]) {
+					flatDepth++
+					inner := FlatCodec(callee)
+					flatDepth--
+					for _, io := range inner {
+						out = append(out, io)
+						blocks = append(blocks, b)
+					}
+					continue
+				}
+			}
+			kind, write, operand, ok := csClassify(ci)
+			if !ok {
+				kind, write, ok = csNested(ci)
+				operand = -1
+				if !ok {
+					continue
+				}
+			}
+			op := CodecOp{Kind: kind, Write: write, Pos: ci.Pos(), Call: ci}
+			args := ci.Common().Args
+			if recv != nil {
+				switch {
+				case operand == -1:
+					if len(args) > 0 {
+						op.Field = csFieldOfValue(args[0], recv)
+					}
+				case operand == -2:
+					if v, isV := ci.(ssa.Value); isV {
+						op.Field = csStoredField(v, recv, 0)
+					}
+				default:
+					if operand < len(args) {
+						op.Field = csFieldOfValue(args[operand], recv)
+					}
+				}
+			}
+			if op.Kind == "bytes" {
+				if k := csFixedBytesKind(ci, write); k == "reread" {
+					continue
+				} else if k != "" {
+					op.Kind = k
+				}
+			}
+			// merge with the previous op when same kind and mutually exclusive blocks
+			if n := len(out); n > 0 && out[n-1].Kind == op.Kind && blocks[n-1] != b && !reaches(blocks[n-1], b) && !reaches(b, blocks[n-1]) {
+				continue
+			}
+			out = append(out, op)
+			blocks = append(blocks, b)
+		}
+	}
+	return out
+}
+
+func reaches(a, b *ssa.BasicBlock) bool {
+	seen := map[*ssa.BasicBlock]bool{}
+	work := []*ssa.BasicBlock{a}
+	for len(work) > 0 {
+		x := work[len(work)-1]
+		work = work[:len(work)-1]
+		for _, s := range x.Succs {
+			if s == b {
+				return true
+			}
+			if !seen[s] {
+				seen[s] = true
+				work = append(work, s)
+			}
+		}
+	}
+	return false
+}
+
+// csNested recognises nested codec calls.
+func csNested(ci ssa.CallInstruction) (kind string, write bool, ok bool) {
+	var name string
+	var recvT types.Type
+	if ci.Common().IsInvoke() {
+		name = ci.Common().Method.Name()
+		recvT = ci.Common().Value.Type()
+	} else {
+		o := ir.CalleeObj(ci)
+		if o == nil {
+			return "", false, false
+		}
+		sig, _ := o.Type().(*types.Signature)
+		if sig == nil || sig.Recv() == nil {
+			return "", false, false
+		}
+		name = o.Name()
+		recvT = sig.Recv().Type()
+	}
+	switch name {
+	case "Serialization", "Serialize":
+		write = true
+	case "Deserialization", "Deserialize":
+	default:
+		return "", false, false
+	}
+	if p, isP := recvT.(*types.Pointer); isP {
+		recvT = p.Elem()
+	}
+	tn := "?"
+	if n, isN := recvT.(*types.Named); isN {
+		tn = n.Obj().Name()
+	}
+	return "T:" + tn, write, true
+}
+
+// KindString renders only the wire kinds.
+func KindString(ops []CodecOp) string {
+	var s []string
+	for _, o := range ops {
+		s = append(s, o.Kind)
+	}
+	return strings.Join(s, " ")
+}
